@@ -4,9 +4,10 @@
    them, resp. those without such a reference (so an unaltered file is never named: no false alarm; mtimes do not
    occur in the model at all); (2) the exit-code selection of verify (11 > 21 > 10 > 0), diff (10 > 21 > 0) and create
    (11 > 10 > 30 > 0) from the reported sets; (3) what is visited is exactly the non-ignored part of the tree (C02/C12
-   traversal theorems) and ignored paths are filtered from the missing report.  The end-to-end statement "create then
-   mutate then verify" over the composed commands is carried by the lockstep correspondence. *)
-From MHL Require Import Model.Commands Gen.Generated Proofs.BaseFacts Proofs.VerifyFacts.
+   traversal theorems) and ignored paths are filtered from the missing report.  The end-to-end statement is proved for the base case (fresh flat tree: seal, then verify / diff exit 0);
+   for histories with several generations, nested histories and mutated trees the composition is carried by the
+   lockstep correspondence. *)
+From MHL Require Import Model.Commands Gen.Generated Proofs.BaseFacts Proofs.TreeFacts Proofs.VerifyFacts Proofs.FreshFacts.
 
 Theorem C03_verify_reports_exactly : forall Hb matches C cdig t ipats ifile hs,
   load C cdig t = inl hs -> lh_gens (root_hist hs) <> [] ->
@@ -51,6 +52,19 @@ Theorem C03_consistent_tree_verifies : forall Hb matches C cdig t hs ipats ifile
   verify_result Hb matches C cdig true t ipats ifile = Some (mkVR 0 [] [] []).
 Proof. exact consistent_verifies. Qed.
 Print Assumptions C03_consistent_tree_verifies.
+
+(* END TO END, base case of the first sentence of the property: seal a well-formed tree that has no history anywhere
+   (any format request, -n or not, any patterns), then verify and diff the untouched result: exit 0, nothing reported --
+   for every tree, matcher and hash primitive.  (Composes: traversal exactness, the session fold, validation, commit,
+   the loader on the resulting tree, stability of the written pattern list, and the verify fold.) *)
+Theorem C03_seal_then_verify_fresh_tree : forall Hb matches C cdig ser kids h0 req no_dh ip ifl,
+  wf_tree C (Dir None kids) -> load C cdig (Dir None kids) = inl [h0] -> req <> [] ->
+  let run := create_folder Hb matches C cdig ser (Dir None kids) req no_dh false ip ifl in
+  o_outcome (snd run) <> Abort ->
+  verify_result Hb matches C cdig false (fst run) [] [] = Some (mkVR 0 [] [] []) /\
+  verify_result Hb matches C cdig true (fst run) [] [] = Some (mkVR 0 [] [] []).
+Proof. exact fresh_create_then_verify. Qed.
+Print Assumptions C03_seal_then_verify_fresh_tree.
 
 (* the exit codes named by the property: obligations on the constants regenerated from errors.py *)
 Theorem C03_codes : exit_completeness = 10%Z /\ exit_verification_failed = 11%Z /\ exit_new_files_found = 21%Z /\ exit_single_file_not_found = 20%Z.
